@@ -1,3 +1,4 @@
+import CssVerif.Model.OutEffectDom
 import CssVerif.Lemmas.OutObj
 /-!
 # T6.3 — the value-level content preferences as DOM rewrites
@@ -43,9 +44,6 @@ theorem hash_head (p : Prefs) (v : Cps) (h : v.head? = some 35) : (hash p v).hea
   split
   · rfl
   · exact h
-
-/-- the rewrite of one string leaf: a HASH item that starts with `#` is shortened as `_hash` would -/
-def hashStr (p : Prefs) (ty s : Cps) : Cps := if ty == t_HASH && s.head? == some 35 then hash p s else s
 
 /-- two calls that `Out.append` cannot tell apart under `p` -/
 def CallEq (p : Prefs) (c d : Call) : Prop := ∀ il o, append p il o c.v c.ty c.f = append p il o d.v d.ty d.f
@@ -156,32 +154,6 @@ theorem calcCalls_hashE (p : Prefs) (its : List EItem) :
   | _ => exact CallEq.rfl' p _
 
 /-! ### the rewrite on the model DOM -/
-
-mutual
-/-- `minimizeColorHash` on the DOM of a value: every HASH string item (of a property value, a function, a colour, a
-calc expression) that starts with `#` is replaced by what `_hash` makes of it, at every nesting depth -/
-def effObj (p : Prefs) : Obj → Obj
-  | .comment t => .comment t
-  | .pvalue ne items => .pvalue ne (effItems p true items)
-  | .value ty v => .value ty (hashStr p ty v)
-  | .num ty n => .num ty n
-  | .color ct items => .color ct (effItems p true items)
-  | .func items => .func (effItems p true items)
-  | .calc items => .calc (effItems p true items)
-  | .ms items => .ms (effItems p false items)          -- `do_css_MSValue` appends every item with type `None`
-  | .var name res fb => .var name (effVal p res) (effVal p fb)
-  | .selector wf items => .selector wf (effItems p false items)
-  | .mquery wf items => .mquery wf (effItems p false items)
-  | .mlist items => .mlist (effItems p false items)
-def effVal (p : Prefs) : Val → Val
-  | .obj o => .obj (effObj p o)
-  | v => v
-/-- `leaves`: rewrite the string leaves of this list too (not under `MSValue`, selectors, media queries) -/
-def effItems (p : Prefs) (leaves : Bool) : List Item → List Item
-  | [] => []
-  | .mk ty (.str s) :: t => .mk ty (.str (if leaves then hashStr p ty s else s)) :: effItems p leaves t
-  | .mk ty v :: t => .mk ty (effVal p v) :: effItems p leaves t
-end
 
 theorem value_hashStr (p : Prefs) (il : Nat) (ty v : Cps) :
     value (append p il [] (.str (hashStr p ty v)) ty) = value (append p il [] (.str v) ty) := by
